@@ -52,6 +52,11 @@ Section MapBase.
     exfalso. apply Hn. now apply height_zero.
   Qed.
 
+  Lemma node_height_pos h k v l r : avl (Map_Node h k v l r) -> 1 <= h.
+  Proof.
+    intros (Hl & Hr & Hh & Hb). pose proof (height_nonneg _ Hl). pose proof (height_nonneg _ Hr). lia.
+  Qed.
+
   (* ---------------------------------------------------------------- run lemmas, non-recursive members *)
   Notation "'run' f" := (f phys_eq K V cmp) (at level 10, f at level 9, only parsing).
 
@@ -182,3 +187,13 @@ Section MapBase.
         eexists; split; [reflexivity|]. split; auto. split; auto. split; lia.
   Qed.
 End MapBase.
+
+(* every `avl (Map_Node h ..)` hypothesis yields 1 <= h *)
+Ltac avl_pos :=
+  repeat match goal with
+  | H : MapBase.avl (Map_Node ?h ?k ?v ?l ?r) |- _ =>
+      lazymatch goal with
+      | _ : 1 <= h |- _ => fail
+      | _ => pose proof (node_height_pos h k v l r H)
+      end
+  end.
